@@ -255,7 +255,7 @@ def _old_requests_worker(a):
             if k % 3 == 0:
                 s.do({"t": "host", "id": cid, "name": "h.example"})
         s.do({"t": "stats"})
-        time.sleep(10.6)
+        time.sleep(11.2)
         out = s.do({"t": "stats"})
         s.finish()
     except Exception:
